@@ -11,7 +11,7 @@ Two versions of the code are modelled, selected by `Cfg`:
                  `reflect.MakeSlice(t, 0, ln)` with the 32-bit wire count, `val.Elem().Type()` on a nil pointer field;
 * `Cfg.fixed`  — the repaired code (the `fix:` commits): chunked `readN`, capacity `min(ln, maxPrealloc)`, nil pointer
                  fields are allocated. The driver runs `Cfg.fixed`; it must agree with the current source. -/
-namespace Tongo.Tl
+namespace Tongo.TlD
 
 structure Cfg where
   /-- readByteSlice: `make([]byte, n)` BEFORE reading the data (n from a 3-byte prefix) -/
@@ -424,4 +424,4 @@ def liteapiRequestDecoder (cfg : Cfg) (lookup : Nat → Option Ty) (b : List UIn
       | .err _ => pure (tag, false)
       | .panic p => .panic p
 
-end Tongo.Tl
+end Tongo.TlD
